@@ -361,7 +361,7 @@ impl<K: KeyT, V: ValT> Subject for RawSubj<K, V> {
         with_raw_ref!(self, c => {
             let mut serials = vec![];
             let l = list_snap(c, &mut serials);
-            Snap { lists: vec![l], scalars: vec![c.cap() as u64], est: None, serials, reported: [c.len() as u64, c.cap() as u64, c.is_empty() as u64] }
+            Snap { lists: vec![l], scalars: vec![c.cap() as u64], inner: vec![], shape: 0, est: None, serials, reported: [c.len() as u64, c.cap() as u64, c.is_empty() as u64] }
         })
     }
     fn audit(&self, lookup: bool) -> AuditList {
@@ -511,6 +511,8 @@ impl<K: KeyT, V: ValT, H: HasherSel> Subject for SlruSubj<K, V, H> {
         Snap {
             lists: vec![pb, pt],
             scalars: vec![c.probationary_cap() as u64, c.protected_cap() as u64],
+            inner: vec![c.verif_probationary().cap() as u64, c.verif_protected().cap() as u64],
+            shape: 0,
             est: None,
             serials,
             reported: [c.len() as u64, c.cap() as u64, c.is_empty() as u64],
@@ -571,6 +573,8 @@ impl<K: KeyT, V: ValT, H: HasherSel> Subject for TwoQSubj<K, V, H> {
         Snap {
             lists: vec![r, f, g],
             scalars: vec![c.cap() as u64, c.verif_recent_quota() as u64, c.verif_ghost().cap() as u64],
+            inner: vec![c.verif_recent().cap() as u64, c.verif_frequent().cap() as u64, c.verif_ghost().cap() as u64],
+            shape: 0,
             est: None,
             serials,
             reported: [c.len() as u64, c.cap() as u64, c.is_empty() as u64],
@@ -628,6 +632,8 @@ impl<K: KeyT, V: ValT, H: HasherSel> Subject for ArcSubj<K, V, H> {
         Snap {
             lists: vec![t1, t2, b1, b2],
             scalars: vec![c.cap() as u64, c.partition() as u64],
+            inner: vec![c.verif_recent().cap() as u64, c.verif_frequent().cap() as u64, c.verif_recent_evict().cap() as u64, c.verif_frequent_evict().cap() as u64],
+            shape: 0,
             est: None,
             serials,
             reported: [c.len() as u64, c.cap() as u64, c.is_empty() as u64],
@@ -716,6 +722,8 @@ impl<K: KeyT, V: ValT> Subject for WtlfuSubj<K, V> {
         Snap {
             lists: vec![w, pb, pt],
             scalars: vec![c.window_cache_cap() as u64, c.verif_main().probationary_cap() as u64, c.verif_main().protected_cap() as u64],
+            inner: vec![c.verif_window().cap() as u64, c.verif_main().verif_probationary().cap() as u64, c.verif_main().verif_protected().cap() as u64],
+            shape: 0,
             est: Some(est_snap(&c.verif_estimator().verif_state())),
             serials,
             reported: [c.len() as u64, c.cap() as u64, c.is_empty() as u64],
